@@ -174,8 +174,12 @@ class FactoryRun:
                 else:
                     await self.spawn_async(h)
             elif op == "observe":
-                names = sorted(int(x.name[1:]) for x in self.factory.all_task_handles())
+                hs = self.factory.all_task_handles()
+                names = sorted(int(x.name[1:]) for x in hs)
                 self.log("observed", names)
+                # the caller owns what it got: emptying it (a shutdown loop popping handles, say) is its business
+                # and changes nothing for the factory
+                hs.clear()
             elif op == "cancel":
                 if step["h"] in self.handles:
                     self.handles[step["h"]].cancel()
